@@ -169,6 +169,9 @@ def _native_index(eng, idx):
                 raise Unsupported("symbolic slice bound on a concrete-shape array")
         return idx
     if isinstance(idx, NArr):
+        if idx.kind == "bool" and any(isinstance(x, Sym) for x in idx.items):
+            # a symbolic boolean mask is decided bit by bit: one path per feasible mask (spec mode refuses to fork)
+            return np.array([bool(eng.branch(eng.truth(x))) for x in idx.items], dtype=bool).reshape(idx.shape)
         if any(isinstance(x, Sym) for x in idx.items):
             raise Unsupported("symbolic index array")
         return np.array([bool(x) if idx.kind == "bool" else int(x) for x in idx.items]).reshape(idx.shape)
@@ -218,6 +221,17 @@ def setitem(eng, a, idx, val):
     from .models import check_frame
 
     check_frame(eng, a.root())
+    if isinstance(idx, Sym) and a.ndim == 1 and kind_of(val) is not None:
+        # a[i] = v at a symbolic position of a 1-D array: every item becomes ite(i == j, v, old) (bounds are an obligation)
+        from .models import norm_index
+
+        iz = norm_index(eng, idx, len(a.items), "array store")
+        used(eng, "1d-store-at-symbolic-position")
+        if a.kind == "int" and kind_of(val) == "real":
+            raise Unsupported("store of a real into an int array")
+        vz = to_z3(cast(eng, val, a.kind), a.kind)
+        a.items = [Sym(z3.If(iz == j, vz, to_z3(x, a.kind)), a.kind) for j, x in enumerate(a.items)]
+        return
     ni = _native_index(eng, idx)
     try:
         ix = idx_of(a)[ni]
